@@ -321,6 +321,7 @@ class Supercell(object):
         """
         if c < -1 or c >= self.Nchem:
             raise IndexError('Trying to occupy with a non-defined chemistry: {} out of range'.format(c))
+        ind = range(self.size * self.N)[ind]  # site number (chemorder must not hold python-style negative indices)
         corig = self.occ[ind]
         if corig != c:
             if corig >= 0:
